@@ -602,14 +602,14 @@ def array_subset(a: int, b: int, null: int) -> bool:
 def array_slice(n: int, start: Optional[int], stop: Optional[int], null: bool) -> bool:
     """
     pre: 0 <= n <= 4
-    pre: start is None or -6 <= start <= 6
-    pre: stop is None or -6 <= stop <= 6
+    pre: start is None or -5 <= start <= 5
+    pre: stop is None or -5 <= stop <= 5
     post: _
     """
     # py_array_slice / py_array_index through JSON text; bounds concrete per path (the result is serialised)
     n = conc(n, 5)
-    s = None if start is None else conc(start + 6, 13) - 6
-    e = None if stop is None else conc(stop + 6, 13) - 6
+    s = None if start is None else conc(start + 5, 11) - 5
+    e = None if stop is None else conc(stop + 5, 11) - 5
     null = cbool(null)
     with NoTracing():
         arr = list(range(10, 10 + n))
